@@ -1602,6 +1602,8 @@ class Interp:
         if isinstance(v, dict):
             if is_concrete(idx):
                 if idx not in v:
+                    if self.caught_here("KeyError") and not self.spec_mode:
+                        raise _Raise("KeyError", node)  # handled by the code itself, or an outcome the contract names
                     self.oblige("defined", "KeyError@L%s" % getattr(node, "lineno", "?"), False, getattr(node, "lineno", None))
                     raise Aborted()
                 return v[idx]
@@ -2439,7 +2441,10 @@ class Interp:
         raise Unsupported("augmented assignment target")
 
     def caught_here(self, exc):
-        """is an exception of class `exc` raised now caught by an enclosing try of the code under execution?"""
+        """is an exception of class `exc` raised now caught by an enclosing try of the code under execution -- or named by the
+        contract's `raises` (then it reaches the raises clause of the contract instead of being a definedness failure)?"""
+        if exc in getattr(self, "contract_raises", ()):
+            return True
         return any(any(self._handler_matches(h, exc) for h in hs) for hs in getattr(self, "_handlers", []))
 
     def s_Try(self, node, env):
